@@ -1099,6 +1099,7 @@ fn main() {
             for v in tmp.violations { if v["contract"].as_str().unwrap_or("").contains("panic") { out.violations.push(v); } }
             for b in tmp.bounded { out.bounded.push(b); }
             proto::c17(&mut out);
+            proto::c17_socket(&mut out);
         } }
         "C04" => c04(&mut out, thorough),
         "C06" => c06(&mut out, thorough),
